@@ -77,6 +77,10 @@ CLAIMS['C09'] = ('Bounded symbolic model checking of the real Wavefront / OPD / 
 CLAIMS['C12'] = ('Bounded symbolic model checking of the real analysis classes over an UNINTERPRETED tracer: SpotDiagram (data, centroid on the primary wavelength among those analysed, rms / geometric radius, no mutation by queries), RmsSpotSizeVsField, EncircledEnergy (the curve drawn by view(): energy within radius, monotone, reaches total), RayFan, Distortion and GridDistortion (angular and object-height fields, both types, bad type rejected), '
     'FieldCurvature (crossing point of the two parabasal rays, curved image included), PupilAberration (real paraxial trace of the lens), RayOperand intercept/direction/rms_spot_size operands: every output equals the documented formula applied to the tracer values at the documented samples (recorded calls), for ALL tracers; explicit field / wavelength lists that differ from the lens included.',
     'the agreement of the parabasal-ray focus with Coddington and of the small-field reference with the paraxial image height are properties of a REAL trace and are not decided here (uninterpreted tracer); 2 fields x 2 wavelengths, 2-7 rays per distribution, 2-3 points per curve; non-degenerate preconditions (reference chief ray off axis, parabasal rays not parallel) stated in the harness')
+CLAIMS['C06'] = ('Bounded symbolic model checking of the real surface code (StandardGeometry.distance / surface_normal, RealRays.reflect / refract / propagate, Plane.distance, OPD accumulation in Surface._trace_real) on closed-form stigmatic configurations with symbolic lens numbers and a symbolic hit point anywhere on the sag sheet: '
+    'paraboloid mirror with collimated light (any height, also a conic assigned after construction), ellipsoid mirror between its foci in both directions (R, eccentricity symbolic), hyperboloid mirror with a beam converging to the far focus (k=-4), exit face of a plano-hyperbolic singlet k=-n^2 (R, n symbolic), sphere through its centre of curvature: the ray is not lost, hits the surface point aimed at, meets the image point, and its optical path referred to the incoming wavefront equals the axial one. '
+    'Perfect-square discriminants are resolved by exact polynomial arithmetic, the remaining radicals are solver atoms.',
+    'one surface + image plane per configuration (the property names single-surface closed forms; multi-surface stigmatic systems follow by composing steps); azimuth atan2(4,3); degenerate rays lying in the image plane excluded; the aplanatic-point clause is only attempted in the thorough tier (genuinely algebraic radicals: reported inconclusive if the solver does not finish); zero wavefront error / Strehl 1 follow from these two facts through C09 (distance from the sphere centre is the radius) and C11 (unaberrated pupil) and are not re-derived here; very deep hyperboloids: known finding F24')
 NOT_YET = 'check not built yet in this round (work in progress; see DESIGN.md section 6 for the plan)'
 
 props = [json.loads(l) for l in open(os.path.join(ROOT, 'properties.jsonl'))]
